@@ -26,7 +26,7 @@ def check(run):
     run.build()
     race = run.build(race=True)
     files = []
-    for sched in ("frame", "cycle"):
+    for sched in ("frame", "frame-audio", "cycle"):
         fs, _ = run.gen("system", fam="multi-" + sched)
         files += fs
     # concurrent schedule under the race detector
